@@ -4,7 +4,7 @@
     no slot, a positive-weight target at least one, and (on the fill path) target i
     exactly [slot_count w_i] slots. *)
 From Coq Require Import List ZArith NArith QArith Qminmax Bool Lia Lqa Permutation.
-From Fabio Require Import Lib.Outcome Model.Weigh Model.Ring Proofs.Weigh Proofs.Ring.
+From Fabio Require Import Lib.Outcome Model.Weigh Model.Ring Model.Pick Proofs.Weigh Proofs.Ring Proofs.Pick.
 Import ListNotations.
 Local Open Scope nat_scope.
 
@@ -468,4 +468,132 @@ Proof.
   - cbn. lia.
   - apply stable_order_perm.
   - exists r. split; assumption.
+Qed.
+
+(* ====================================================================== *)
+(* the composed statements: weights -> ring -> round-robin shares          *)
+(* ====================================================================== *)
+(** every target fixed and the weights sum to exactly 100%: honoured as given (the case between
+    [fixed_honoured], which needs a dynamic target, and [scaled_up], which needs a sum below one) *)
+Theorem fixed_honoured_sum_one (l : list Q) i f w : (Z.of_nat (length l) <= 3000000000)%Z ->
+  nth_error l i = Some f -> (0 < f)%Q -> (sum_pos l == 1)%Q ->
+  nth_error (weighQ l) i = Some w -> (w == f)%Q.
+Proof.
+  intros Hlen Hn Hf Hsum Hw. rewrite (weighQ_eq_unrepaired l Hlen) in Hw.
+  rewrite (weighQU_nth l i f Hn) in Hw. injection Hw as <-.
+  assert (Hp : posb f = true) by now apply Q_gt_true.
+  pose proof (posb_in_nfix l f (nth_error_In _ _ Hn) Hp) as Hnf.
+  unfold weight_fn. replace (Nat.eqb (n_fix l) 0) with false by (symmetry; apply Nat.eqb_neq; lia).
+  rewrite Hp, scaleQ_unfold.
+  replace (Q_gt (sum_fixed arithQ l) 1) with false
+    by (symmetry; apply Q_gt_false; rewrite sum_fixed_eq, Hsum; apply Qle_refl).
+  replace (Q_lt (sum_fixed arithQ l) 1) with false
+    by (symmetry; apply Q_lt_false; rewrite sum_fixed_eq, Hsum; apply Qle_refl).
+  rewrite andb_false_r. cbn [orb]. ring.
+Qed.
+
+(** no fixed weight: the ring IS the target list, every target exactly one slot *)
+Theorem route_ring_all_dynamic order (l : list Q) : n_fix l = 0 ->
+  route_ring arithQ order l = Ok (weighQ l, map Some (seq 0 (length l))).
+Proof.
+  intros H0. unfold route_ring, uses_fill. change (n_fixed arithQ l) with (n_fix l). rewrite H0. reflexivity.
+Qed.
+
+(** some fixed weight: the ring has exactly the sum of the slot counts, target i its slot count *)
+Theorem route_ring_fill_spec order (l : list Q) :
+  n_fix l <> 0 -> (Z.of_nat (length l) <= 3000000000)%Z -> (forall s, Permutation (order s) s) ->
+  exists r, route_ring arithQ order l = Ok (weighQ l, r)
+    /\ Z.of_nat (length r) = zsum (map slot_countQ (weighQ l))
+    /\ occupancy None r = 0
+    /\ forall i w, nth_error (weighQ l) i = Some w -> Z.of_nat (occupancy (Some i) r) = slot_countQ w.
+Proof.
+  intros Hnf Hlen Hord. rewrite (route_ring_Q_eq order l Hlen), (weighQ_eq_unrepaired l Hlen).
+  unfold route_ring_unrepaired. fold (weighQ_unrepaired l). change (n_fixed arithQ l) with (n_fix l).
+  replace (Nat.eqb (n_fix l) 0) with false by (symmetry; apply Nat.eqb_neq; exact Hnf).
+  destruct (route_counts_ok_unrepaired l Hlen) as [Hrange Hb]. cbv zeta in Hrange, Hb.
+  set (counts := map (slot_count arithQ) (weighQ_unrepaired l)) in *.
+  assert (Hnn : Forall (fun n => 0 <= n)%Z counts) by (eapply Forall_impl; [|exact Hrange]; cbn; intros; lia).
+  destruct (ring_of_counts_spec counts (order (indexed counts)) Hnn Hb (Hord _)) as (r & Hr & Hl & Hn & Hs).
+  rewrite Hr. cbn [bind]. exists r. split; [reflexivity|]. split; [exact Hl|]. split; [exact Hn|].
+  intros i w Hw. rewrite Hs. unfold counts.
+  apply (nth_error_nth (map (slot_count arithQ) (weighQ_unrepaired l))). now apply map_nth_error.
+Qed.
+
+(** C04_rr_share_end_to_end: for every non-empty route with fewer than 10000 targets (fixed weights or
+    not), whatever the sort does and wherever the cursor stands (no uint64 wrap inside the cycle): over
+    one full round-robin cycle the fraction of requests target i receives is its effective weight up
+    to (len + 1) / (10000 - len); exactly its weight when no weight is fixed *)
+Theorem rr_share_end_to_end order (l : list Q) total :
+  l <> [] -> (Z.of_nat (length l) < 10000)%Z -> (forall s, Permutation (order s) s) -> (total < two64)%N ->
+  exists r, route_ring arithQ order l = Ok (weighQ l, r) /\ r <> [] /\
+    ((total + N.of_nat (length r) <= two64)%N ->
+     exists picks c, rr_run (length r) r total = Ok (picks, c) /\ length picks = length r /\
+       forall i w, nth_error (weighQ l) i = Some w ->
+         let share := (inject_Z (Z.of_nat (occupancy (Some i) picks)) / inject_Z (Z.of_nat (length r)))%Q in
+         let B := ((qn (length l) + 1) / (inject_Z 10000 - qn (length l)))%Q in
+         (- B <= share - w)%Q /\ (share - w <= B)%Q).
+Proof.
+  intros Hne Hlt Hord Htot.
+  assert (Hlen : (Z.of_nat (length l) <= 3000000000)%Z) by lia.
+  assert (Hl0 : 0 < length l) by (destruct l; [congruence|cbn; lia]).
+  assert (HB : (0 <= (qn (length l) + 1) / (inject_Z 10000 - qn (length l)))%Q).
+  { pose proof (qn_nonneg (length l)) as Hq. rewrite Zlt_Qlt in Hlt. fold (qn (length l)) in Hlt.
+    apply Qle_shift_div_l; lra. }
+  destruct (Nat.eq_dec (n_fix l) 0) as [H0|Hnf].
+  - (* no fixed weight *)
+    exists (map Some (seq 0 (length l))). split; [now apply route_ring_all_dynamic|].
+    assert (Hrne : map Some (seq 0 (length l)) <> []) by (destruct l; [congruence|cbn [length seq map]; discriminate]).
+    split; [exact Hrne|]. intros Hb.
+    destruct (rr_cycle_exact _ total Hrne Htot Hb) as (picks & Hrun & Hlp & Hocc).
+    exists picks. eexists. split; [exact Hrun|]. split; [exact Hlp|].
+    intros i w Hw. cbv zeta. rewrite Hocc, occupancy_map_some_seq. cbn [Nat.leb andb Nat.add].
+    assert (Hi : i < length l).
+    { rewrite <- (weighQ_length l). apply (proj1 (nth_error_Some (weighQ l) i)). rewrite Hw. discriminate. }
+    replace (Nat.ltb i (length l)) with true by (symmetry; apply Nat.ltb_lt; exact Hi).
+    rewrite map_length, seq_length.
+    rewrite (weighQ_eq_unrepaired l Hlen) in Hw. destruct (weighQU_nth_inv l i w Hw) as (f & _ & ->).
+    unfold weight_fn. rewrite H0. cbn [Nat.eqb]. fold (qn (length l)). change (inject_Z (Z.of_nat 1)) with 1%Q.
+    pose proof (qn_pos _ Hl0).
+    assert (He : (1 / qn (length l) - 1 / qn (length l) == 0)%Q) by ring.
+    rewrite He. split; lra.
+  - destruct (route_ring_fill_spec order l Hnf Hlen Hord) as (r & Hr & Hl & Hnil & Hocc).
+    destruct (slots_resolution_sum l Hne) as [Hlo _].
+    assert (Hrne : r <> []) by (intros ->; cbn [length] in Hl; lia).
+    exists r. split; [exact Hr|]. split; [exact Hrne|]. intros Hb.
+    destruct (rr_cycle_exact r total Hrne Htot Hb) as (picks & Hrun & Hlp & Hpo).
+    exists picks. eexists. split; [exact Hrun|]. split; [exact Hlp|].
+    intros i w Hw. cbv zeta. rewrite Hpo, (Hocc i w Hw), Hl.
+    destruct (slots_share_bound l i w Hne Hlt Hw) as (_ & H1 & H2). split; assumption.
+Qed.
+
+(** `route weight` composed with weighTargets: when the fixed weights after the command fit into
+    100% and some target stays dynamic, every matching target's EFFECTIVE weight is weight / n,
+    i.e. the matching targets receive the configured share in total *)
+Theorem set_weight_then_weigh (m : list bool) (wt : Q) (l : list Q) i w :
+  length m = length l -> (Z.of_nat (length l) <= 3000000000)%Z -> (0 < wt)%Q ->
+  let l' := fst (set_weight arithQ m wt l) in
+  (sum_pos l' <= 1)%Q -> n_fix l' < length l' ->
+  nth_error m i = Some true -> nth_error (weighQ l') i = Some w ->
+  (w == wt / qn (count_true m))%Q.
+Proof.
+  intros Hlm Hlen Hwt l' Hsum Hdyn Hm Hw.
+  assert (Hn : 0 < count_true m).
+  { unfold count_true. clear -Hm. revert i Hm. induction m as [|b m IH]; intros i Hm; [destruct i; discriminate|].
+    destruct i as [|i]; cbn [nth_error] in Hm.
+    - injection Hm as ->. cbn [filter length]. lia.
+    - specialize (IH i Hm). cbn [filter]. destruct b; cbn [length]; lia. }
+  assert (Hi : i < length l).
+  { rewrite <- Hlm. apply (proj1 (nth_error_Some m i)). rewrite Hm. discriminate. }
+  destruct (nth_error l i) as [f|] eqn:Hf; [|apply nth_error_None in Hf; lia].
+  assert (Hl'i : nth_error l' i = Some (wt / qn (count_true m))%Q).
+  { unfold l', set_weight. cbn [fst]. rewrite (assign_nth m _ l i true f Hm Hf). reflexivity. }
+  assert (Hlen' : length l' = length l).
+  { assert (Hgen : forall (m0 : list bool) w0 (l0 : list Q), length (assign arithQ m0 w0 l0) = length l0).
+    { induction m0 as [|b0 m0 IH]; intros w0 l0; [reflexivity|]. destruct l0 as [|f0 l0]; [reflexivity|].
+      cbn [assign length]. now rewrite IH. }
+    unfold l', set_weight. cbn [fst]. apply Hgen. }
+  pose proof (qn_pos _ Hn) as Hq.
+  assert (Hlen2 : (Z.of_nat (length l') <= 3000000000)%Z) by (rewrite Hlen'; exact Hlen).
+  assert (Hpos : (0 < wt / qn (count_true m))%Q) by (apply Qlt_shift_div_l; lra).
+  exact (fixed_honoured l' i (wt / qn (count_true m))%Q w Hlen2 Hl'i Hpos Hsum Hdyn Hw).
 Qed.
